@@ -37,6 +37,8 @@ THEOREMS = [P + t for t in (
     "coup_op_rebuilt", "sys_corr_feeds", "parse_slice_upto", "sys_corr_steps", "kernel_assembly",
     "kernel_cell_exact", "kernel_cell_algebraic", "kernel_diag_exact",
     "kernel_diag_degenerate_partial",
+    "bath_steps_round", "bath_last_time_step", "bath_int_conversions_listed", "bath_steps_literals",
+    "occupation_axis",
 )]
 
 GRIDS = [("0.0", "0.1"), ("0.5", "0.2"), ("-0.3", "0.05"), ("1.7", "0.3")]
@@ -394,6 +396,7 @@ def correspondence(res, tier, rng, corpus_cases=()):
     # ---- (e) real TwoTimeBathCorrelations objects -----------------------------------
     bath_correspondence(res, tier, rng)
     bath_steps_correspondence(res, tier, rng)
+    bath_axes_correspondence(res, tier)
 
 
 def value_table(rig, n, s, d, k, mode):
@@ -851,44 +854,89 @@ def search_bath(report, rng):
                         "coupling_operator_re": o.real.tolist(), "coupling_operator_im": o.imag.tolist()})
 
 
-def search_bath_axes(report):
-    """(7) the returned occupation axis pairs every value with its time; (8) a fresh object asked
-    for a single step"""
+def occupation_axis_case(n, dt):
+    """real occupation() on a process tensor of n steps: (times, values)"""
     import oqupy
     import oqupy.bath_dynamics as bd
     from . import oq
     o = np.diag([0.5, -0.5]).astype(complex)
     corr = oqupy.PowerLawSD(alpha=0.1, zeta=1.0, cutoff=10.0, cutoff_type="exponential",
                             temperature=2.0)
-    bath = oqupy.Bath(o, corr)
-    system = oqupy.System(0.3 * o)
-    for dt in (0.1, 0.05):
-        for n in range(2, 31):
-            obj = bd.TwoTimeBathCorrelations(system, bath, oq.long_trivial_pt(n, dt=dt),
-                                             initial_state=generic_state(2),
-                                             system_correlations=np.triu(np.full((n, n), 0.25 + 0j)))
-            tl, occ = obj.occupation(1.0, progress_type="silent")
-            want = [k * dt for k in range(n + 1)]
-            if len(tl) != len(occ) or [float(x) for x in tl] != want:
-                report("bath-occupation-axis", "bath-occupation-axis:len(process_tensor)=%d dt=%r" % (n, dt),
-                       {"api": "TwoTimeBathCorrelations.occupation", "len_process_tensor": n, "dt": dt,
-                        "len_times": len(tl), "len_occupation": len(occ),
-                        "last_times": [float(x) for x in tl[-3:]],
-                        "how": "tlist = np.arange(0, last_time + dt, dt) has one entry more than the "
-                               "occupation array when (n*dt + dt)/dt rounds up"})
-    name, op = "complex [[1,-0.5j],[0.5j,0]]", np.array([[1.0, -0.5j], [0.5j, 0.0]])
+    obj = bd.TwoTimeBathCorrelations(oqupy.System(0.3 * o), oqupy.Bath(o, corr),
+                                     oq.long_trivial_pt(n, dt=dt), initial_state=generic_state(2),
+                                     system_correlations=np.triu(np.full((n, n), 0.25 + 0j)))
+    return obj.occupation(1.0, progress_type="silent")
+
+
+def oracle_occupation_axis(report, cases):
+    """(7) occupation() returns one time per value, the k-th time being k*dt"""
+    for n, dt in cases:
+        tl, occ = occupation_axis_case(n, dt)
+        if len(tl) != len(occ) or [float(x) for x in tl] != [k * dt for k in range(n + 1)]:
+            report("bath-occupation-axis", "bath-occupation-axis:len(process_tensor)=%d dt=%r" % (n, dt),
+                   {"api": "TwoTimeBathCorrelations.occupation", "len_process_tensor": n, "dt": dt,
+                    "len_times": len(tl), "len_occupation": len(occ),
+                    "last_times": [float(x) for x in tl[-3:]],
+                    "how": "the time axis does not pair every occupation value with its time k*dt"})
+
+
+def oracle_single_step(report):
+    """(8) a fresh object asked for a single step: the one-cell result vs the closed form, and the
+    stored system correlation vs a direct compute_correlations call"""
+    op = np.array([[1.0, -0.5j], [0.5j, 0.0]])
     rig = BathRig(op, n=3, dt=0.1, epsrel=1e-7, commuting=True)
     c_exact = float(np.trace(rig.o @ rig.o @ rig.rho).real)
     _, corr_ref = displaced_oscillator(rig, c_exact)
     num = rig.obj.correlation(1.0, 0.1, 3.0, 0.1, dagg=(1, 0), progress_type="silent")
     ref = corr_ref(0.1, 0.1, 1.0, 3.0, (1, 0))
-    if not abs(num - ref) < 1e-6:
+    held = np.array(rig.obj._system_correlations)
+    want = rig.direct(1)
+    stored_ok = held.shape == (1, 1) and abs(held[0, 0] - want[0, 0]) < 1e-10
+    if not abs(num - ref) < 1e-6 or not stored_ok:
         report("bath-single-step", "bath-correlation-single-step:fresh object time_2=dt",
                {"api": "TwoTimeBathCorrelations.correlation", "freq_1": 1.0, "time_1": 0.1, "freq_2": 3.0,
                 "time_2": 0.1, "dt": 0.1, "dagg": [1, 0], "got": repr(complex(num)),
                 "displaced_oscillator_closed_form": repr(complex(ref)),
-                "how": "the empty `[[]]` correlation matrix has shape (1, 0), so a first request for "
-                       "one step generates nothing and the kernel is summed against an empty array"})
+                "stored_system_correlations_shape": list(held.shape),
+                "how": "a first request for one step must generate the 1x1 system correlation"})
+
+
+AXIS_CASES = [(n, dt) for dt in (0.1, 0.05, 0.2) for n in (2, 11, 12, 14, 23)]
+
+
+def search_bath_axes(report):
+    oracle_occupation_axis(report, [(n, dt) for dt in (0.1, 0.05) for n in range(2, 31)])
+    oracle_single_step(report)
+
+
+def bath_axes_correspondence(res, tier):
+    """always run: (i) the time axis of occupation() vs the regenerated Lean functions, exactly;
+    (ii) the two spec-level oracles for defects that were repaired (fixed findings must be
+    reported again if they return)"""
+    cases = AXIS_CASES if tier == "quick" else \
+        [(n, dt) for dt in (0.1, 0.05, 0.2, 0.01) for n in range(1, 41)]
+    lines, expect = [], []
+    for n, dt in cases:
+        tl, _occ = occupation_axis_case(n, dt)
+        lines.append("tlist %d %s" % (n, rat(dt)))
+        expect.append("count=%d times=%s" % (len(tl), ",".join(rat(float(x)) for x in tl)))
+        res.count("bath-axis:dt=%r" % dt)
+    out = fw.run_driver("C07Bath", lines)
+    if len(out) != len(lines):
+        raise fw.Infra("driver C07Bath returned %d lines for %d inputs" % (len(out), len(lines)))
+    for k, (line, exp, got) in enumerate(zip(lines, expect, out)):
+        res.case(line, True, {"op": line, "impl": exp[:200], "model": got[:200]} if k == 0 else None)
+        if exp != got:
+            res.disagree("time axis of occupation(): model and implementation differ on " + line,
+                         {"line": line, "impl": exp, "model": got})
+    seen = set()
+
+    def report(cls, key, payload):
+        if cls not in seen:
+            seen.add(cls)
+            res.fail(key, payload)
+    oracle_occupation_axis(report, cases)
+    oracle_single_step(report)
 
 
 # ---------------------------------------------------------------------------
@@ -1041,6 +1089,32 @@ def py_repr(p):
     return repr(p).replace(" ", "")
 
 
+def oracle_dt(rig, report):
+    # (2) a time step passed by the caller governs the axes and the dynamics
+    ref_t, ref = rig.two(3, 0.0, None, 1, 3, False, system=rig.sys_td, pt=rig.oq.identity_pt(3, dt=0.2))
+    for ptdt in (None, 0.1):
+        try:
+            with warnings.catch_warnings():
+                warnings.simplefilter("ignore")
+                t, c = rig.two(3, 0.0, None, 1, 3, False, system=rig.sys_td, dt_arg=0.2,
+                               pt=rig.oq.identity_pt(3, dt=ptdt))
+        except Exception as e:    # noqa: BLE001
+            if ptdt is None:
+                report("dt-rejected", "dt-argument-rejected: process_tensor.dt=None dt=0.2",
+                       {"api": "compute_correlations", "process_tensor_dt": None, "dt": 0.2,
+                        "exception": "%s: %s" % (type(e).__name__, str(e)[:120]),
+                        "how": "a process tensor without stored dt needs the dt argument, "
+                               "but the argument never reaches compute_dynamics"})
+            continue        # a refused mismatch makes no claim about axes or values
+        axes_dt = float(t[1][0] - t[0][0]) / 2.0
+        if abs(axes_dt - 0.2) < 1e-12 and abs(complex(c[0, 0]) - complex(ref[0, 0])) > 1e-9:
+            report("dt-not-governing", "dt-argument-labels-axes-only: process_tensor.dt=%s dt=0.2" % ptdt,
+                   {"api": "compute_correlations", "process_tensor_dt": ptdt, "dt": 0.2,
+                    "returned_times": [float(t[0][0]), float(t[1][0])], "got": repr(complex(c[0, 0])),
+                    "dynamics_with_dt_0.2_gives": repr(complex(ref[0, 0])),
+                    "how": "axes are labelled with dt=0.2 but the propagators use the stored dt"})
+
+
 def search(res, rng=None, only=None):
     rng = rng or random.Random(res.seed)
     rig = Rig()
@@ -1084,29 +1158,7 @@ def search(res, rng=None, only=None):
                     what, py_repr([a, b, c]), s, d),
                     dict(det, api="compute_correlations_nt", max_step=n, start_time=s, dt=d,
                          ops_times=py_repr([a, b, c])))
-    # (2) a time step passed by the caller governs the axes and the dynamics
-    ref_t, ref = rig.two(3, 0.0, None, 1, 3, False, system=rig.sys_td, pt=rig.oq.identity_pt(3, dt=0.2))
-    for ptdt in (None, 0.1):
-        try:
-            with warnings.catch_warnings():
-                warnings.simplefilter("ignore")
-                t, c = rig.two(3, 0.0, None, 1, 3, False, system=rig.sys_td, dt_arg=0.2,
-                               pt=rig.oq.identity_pt(3, dt=ptdt))
-        except Exception as e:    # noqa: BLE001
-            if ptdt is None:
-                report("dt-rejected", "dt-argument-rejected: process_tensor.dt=None dt=0.2",
-                       {"api": "compute_correlations", "process_tensor_dt": None, "dt": 0.2,
-                        "exception": "%s: %s" % (type(e).__name__, str(e)[:120]),
-                        "how": "a process tensor without stored dt needs the dt argument, "
-                               "but the argument never reaches compute_dynamics"})
-            continue        # a refused mismatch makes no claim about axes or values
-        axes_dt = float(t[1][0] - t[0][0]) / 2.0
-        if abs(axes_dt - 0.2) < 1e-12 and abs(complex(c[0, 0]) - complex(ref[0, 0])) > 1e-9:
-            report("dt-not-governing", "dt-argument-labels-axes-only: process_tensor.dt=%s dt=0.2" % ptdt,
-                   {"api": "compute_correlations", "process_tensor_dt": ptdt, "dt": 0.2,
-                    "returned_times": [float(t[0][0]), float(t[1][0])], "got": repr(complex(c[0, 0])),
-                    "dynamics_with_dt_0.2_gives": repr(complex(ref[0, 0])),
-                    "how": "axes are labelled with dt=0.2 but the propagators use the stored dt"})
+    oracle_dt(rig, report)
     # (4)-(5) bath correlations, (6) values against an exact joint evolution
     search_bath(report, rng)
     search_values(report)
@@ -1149,6 +1201,52 @@ def replay_one(res, payload):
         search(res, only=key)
         if len(res.failing) == before:
             res.notes.append("replay: %s no longer fails" % key)
+
+
+def corpus_replays(res, tier):
+    """corpus convention: the recorded failing inputs of repaired defects run first, each through
+    the spec-level oracle that reported it"""
+    d = os.path.join(fw.CORPUS, PID)
+    if not os.path.isdir(d):
+        return
+    seen = set()
+
+    def report(cls, key, payload):
+        if key not in seen:
+            seen.add(key)
+            res.fail(key, payload)
+    rig = None
+    for f in sorted(os.listdir(d)):
+        if not (f.startswith("defect-") and f.endswith(".json")):
+            continue
+        payload = json.load(open(os.path.join(d, f)))
+        key, fi = payload["key"], payload["failing_input"]
+        res.count("corpus-replay")
+        if key.startswith("bath-occupation-axis"):
+            oracle_occupation_axis(report, [(fi["len_process_tensor"], fi["dt"])])
+        elif key.startswith("bath-correlation-single-step"):
+            oracle_single_step(report)
+        elif key.startswith("dt-argument"):
+            rig = rig or Rig()
+            oracle_dt(rig, report)
+        elif key.startswith("unordered-entry-not-nan:nt ops_times=[[100001]"):
+            if tier == "thorough":
+                oracle_long_order(report)
+        else:
+            replay_one(res, payload)
+
+
+def oracle_long_order(report):
+    rig = Rig()
+    big = 100001
+    pt = rig.oq.long_trivial_pt(big, dt=0.1)
+    t, c = rig.nt(big, 0.0, 0.1, [[big], [big - 1], [big]], pt=pt)
+    z = complex(np.asarray(c).reshape(-1)[0])
+    if not (np.isnan(z.real) or np.isnan(z.imag)):
+        report("unordered-long", "unordered-entry-not-nan:nt ops_times=[[100001],[100000],[100001]]",
+               {"api": "compute_correlations_nt", "max_step": big, "dt": 0.1,
+                "ops_times": "[[100001],[100000],[100001]]", "got": repr(z),
+                "how": "steps (100001, 100000, 100001) are not time ordered, yet the entry is not NaN"})
 
 
 def load_corpus():
@@ -1221,6 +1319,7 @@ def run(tier, seed, replay):
     # "each entry is the correlation for exactly these operators at these times"
     c18 = ["OQuPyVerif.Props.C18.stack_order_partial", "OQuPyVerif.Props.C18.acts_once_at_step",
            "OQuPyVerif.Props.C18.recorded_word"]
+    corpus_replays(res, tier)
     fw.standard_pipeline(res, ["CorrTimes", "CorrBath", "ControlCompose"], THEOREMS + c18,
                          extra_modules=["OQuPyVerif.Props.C18"])
     built = all(o[1] for o in res.obligations if o[0].startswith("translator"))
